@@ -5,7 +5,7 @@ import impl
 import polycorr
 
 ID = "C12"
-PROP_FILES = ["Props/C12.v"]
+PROP_FILES = ["Props/C12.v", "Props/R_base.v"]  # R_base: C12 on whole programs of the reference assembler
 RUN_FILES = ["Run/C12Run.v", "Run/PolyRun.v"]
 RULE = ("generated: programs of 1-3 linked files (bytes-only statements of sizes 1-6, 2-6 labels anywhere, exported across files) with "
         "(a) a link expression K + sum k_i*(L_i-L_j) in 27 spellings (k*(a-b), (a-b)*k, k*a-k*b, a*k-b*k, unary minus and unary plus applied to "
